@@ -9,6 +9,7 @@
   This file holds only the property theorems; helper lemmas live in `PdsVerif/Lemmas/Stft*.lean`.
 -/
 import PdsVerif.Lemmas.StftStream
+import PdsVerif.Lemmas.StftRaw
 namespace PdsVerif.C01
 open PdsVerif.Model.Stft PdsVerif.StftArith PdsVerif.StftCanon PdsVerif.StftStream
 
@@ -55,6 +56,20 @@ theorem stft_full_frames_length (c : Cfg) (w : WF c) (x : List α) :
 theorem stft_full_count (c : Cfg) (w : WF c) (x : List α) :
     (full c x).length = if x.length < c.L / 2 + 1 then 0 else (x.length + c.S / 2) / c.S := by
   rw [full_eq c w]; simp [framesFrom, numFull]
+
+/-- the same for the *physical-buffer* model (the one the driver executes and the correspondence runs
+tie to the code): whatever junk the freshly allocated buffer holds, streaming equals `compute_full` -/
+theorem stft_raw_stream_eq_full (c : Cfg) (w : WF c) (junk : List α) (hj : junk.length = c.L)
+    (chunks : List (List α)) :
+    (PdsVerif.Model.StftRaw.streamFrom c (PdsVerif.Model.StftRaw.fresh junk) chunks).2
+      = full c chunks.flatten := by
+  have h := (PdsVerif.StftRawLemmas.streamFrom_refines c w chunks _
+    (PdsVerif.StftRawLemmas.inv_fresh c junk hj)).1
+  rw [h]
+  have : (PdsVerif.Model.StftRaw.fresh junk).abs = (init : St α) := by
+    simp [PdsVerif.Model.StftRaw.fresh, PdsVerif.Model.StftRaw.Raw.abs, init, takeLast]
+  rw [this]
+  exact stft_stream_eq_full c w chunks
 
 /-! non-vacuity: `WF` is met by ordinary configurations, and the statement is about non-trivial runs -/
 example : WF { L := 4, S := 2, centered := true, kaldi := false } := ⟨by decide, by decide⟩
